@@ -29,6 +29,8 @@ type Program struct {
 	SSA       *ssa.Program
 	NPkgs     int
 	NModFuncs int
+	callSites map[*ssa.Function][]*ssa.Call
+	otherRefs map[*ssa.Function]int
 	cg        *callgraph.Graph
 	allFuncs  map[*ssa.Function]bool
 	modFuncs  []*ssa.Function
